@@ -52,14 +52,16 @@ type c15Source struct {
 	other  *Leaf  // never revoked
 }
 
-// c15Close cleans a validator up while no refresh of the process is in flight (the harness holds the refresh
-// mutex for the duration of Cleanup). Without this a refresh of the closing instance that is in flight or queued
-// meets closed LevelDB stores and retries every step 5 x 1 s *while holding the process-wide refresh mutex*,
-// which stalls the refreshes of every other validator for seconds (measured separately by c15CleanupInterference).
+// c15Close cleans a validator up so that no refresh of it runs afterwards: a forced refresh stamps the finish time,
+// so the tick calls still queued behind the refresh mutex skip ("recently finished") instead of running on the
+// closed repository. Without this a queued refresh of a closed disk instance retries every LevelDB step 5 x 1 s
+// *while holding the process-wide refresh mutex*, which stalls the refreshes of every other validator for seconds
+// (that effect is measured on purpose by c15CleanupInterference, not by accident everywhere else).
 func c15Close(v *Validator) {
-	release := crl.VerifHoldUpdateMutex()
+	if chk := v.V.VerifCRLChecker(); chk != nil {
+		chk.VerifUpdateCRLs(true)
+	}
 	v.Close()
-	release()
 }
 
 // c15Quiesce waits until the refresh mutex is free twice in a row (no queue of refresh calls behind it).
@@ -223,16 +225,19 @@ func c15CleanupInterference(r *Run) {
 			worst = ms
 		}
 		if !ok {
-			r.Violate("C15 refresh-blocked-by-cleaned-up-instance", fmt.Sprintf("instance B (interval 300 ms) did not pick up a new CRL within 40 s while instance A (disk, 1 location) was cleaned up during its refresh"), nil)
+			r.Violate("C15 refresh-blocked-by-cleaned-up-instance backend=disk", fmt.Sprintf("instance B (interval 300 ms) did not pick up a new CRL within 40 s while instance A (disk, 1 location) was cleaned up during its refresh"), nil)
 		}
 		r.Eval(fmt.Sprintf("cleanup-interference/%d", i), true)
 	}
-	bound := c15Bound(300) + 12000
-	r.Op(fmt.Sprintf("sched admits delay 300 %d %d %d", c15D, c15W+12000, worst), "yes")
+	bound := c15Bound(300) + 1000
+	if worst <= bound {
+		r.Op(fmt.Sprintf("sched admits delay 300 %d %d %d", c15D, c15W+1000, worst), "yes")
+	}
 	r.Sample(map[string]interface{}{"scenario": "cleanup of a disk instance during its refresh", "other_instance_interval_ms": 300, "worst_publish_to_reject_ms": worst, "rounds": rounds})
 	r.Count(fmt.Sprintf("cleanup-interference-over-1s:%v", worst > 1000))
 	if worst > bound {
-		r.Violate("C15 refresh-blocked-by-cleaned-up-instance", fmt.Sprintf("instance B (interval 300 ms) saw a new CRL only after %d ms while instance A (disk, 1 location) was cleaned up during its refresh (granted %d ms)", worst, bound), nil)
+		r.Violate("C15 refresh-blocked-by-cleaned-up-instance backend=disk", fmt.Sprintf("instance B (memory, interval 300 ms) saw a newly published CRL only after %d ms because instance A (disk, 1 location) was cleaned up while one of its refresh calls was in flight: that call retries on the closed stores (2 x 5 x 1 s per location) holding the process-wide refresh mutex (granted %d ms)", worst, bound),
+			map[string]interface{}{"scenario": "A: disk, 1 crl_url, updateCRLsRecovering(true) || Cleanup(); B: memory, update_interval 300ms, publish new CRL, poll handshake", "worst_ms": worst})
 	}
 }
 
